@@ -10,6 +10,7 @@ import (
 	"math/big"
 	"os"
 	"path/filepath"
+	"reflect"
 	"runtime"
 	"sort"
 	"strconv"
@@ -1916,6 +1917,284 @@ func c20HasNonLitPow(e *aExpr) bool {
 }
 
 // ---------------------------------------------------------------------------------------------
+// history: many evaluations on ONE Config / Runner
+
+// c20ArithmDepth reads the unexported nesting counter of a Config (0 between evaluations).
+func c20ArithmDepth(cfg *expand.Config) (int, bool) {
+	f := reflect.ValueOf(cfg).Elem().FieldByName("arithmDepth")
+	if !f.IsValid() || !f.CanInt() {
+		return 0, false
+	}
+	return int(f.Int()), true
+}
+
+type c20HistStep struct {
+	e    *aExpr
+	text string
+}
+
+// c20HistoryPlan: variables whose values fail at various nesting depths (division by zero, negative
+// exponent, syntax error, behind chains of expression texts) mixed with valid ones, and a sequence of
+// K evaluations over them.
+func c20HistoryPlan(r *Rand) ([]c20Var, []c20HistStep) {
+	vars := []c20Var{{name: "tot", val: "12"}, {name: "p", val: "0"}, {name: "res", val: ""},
+		{name: "g", val: "tot*2+1"}, {name: "g2", val: "g + 1"}, {name: "g3", val: "g2 * g"},
+		{name: "f1", val: "tot/p"}, {name: "f2", val: "2 ** (p - 1)"}, {name: "f3", val: "tot +"}, {name: "f4", val: "f1 + 1"}}
+	depth := 1 + r.Intn(7)
+	if r.Intn(6) == 0 {
+		depth = 40 + r.Intn(25)
+	}
+	fail := r.Pick([]string{"tot/p", "2 ** (p - 1)", "tot % p", "tot +"})
+	for i := 0; i < depth; i++ {
+		val := fmt.Sprintf("c%d + 0", i+1)
+		if i == depth-1 {
+			val = fail
+		}
+		vars = append(vars, c20Var{name: fmt.Sprintf("c%d", i), val: val})
+	}
+	failing := []string{"f1", "f2", "f3", "f4", "c0", "c0", "c0"}
+	valid := []string{"g", "g2", "g3", "tot", "7"}
+	k := 1 + r.Intn(40)
+	switch r.Intn(3) {
+	case 0:
+		k = 1 + r.Intn(300)
+	case 1:
+		k = 100 + r.Intn(200)
+	}
+	pFail := 20 + r.Intn(78)
+	var steps []c20HistStep
+	for i := 0; i < k; i++ {
+		var e *aExpr
+		switch {
+		case i == k-1 || !r.Chance(pFail):
+			w := aW(r.Pick(valid))
+			switch r.Intn(4) {
+			case 0:
+				e = aB("add", w, aW("1"))
+			case 1:
+				e = aB("comma", aU("inc", true, aW("tot")), w)
+			default:
+				e = w
+			}
+		default:
+			w := aW(r.Pick(failing))
+			switch r.Intn(4) {
+			case 0:
+				e = aB("mul", aW("2"), w)
+			case 1:
+				e = aB("orL", aW("0"), w)
+			default:
+				e = w
+			}
+		}
+		e = aB("assgn", aW("res"), e).parenthesize()
+		text, _ := c20ExprText(e, false)
+		steps = append(steps, c20HistStep{e: e, text: text})
+	}
+	return vars, steps
+}
+
+func c20HistoryScript(vars []c20Var, steps []c20HistStep, upto int) string {
+	var sb strings.Builder
+	sb.WriteString(c20Assignments(vars))
+	for i := 0; i < upto && i < len(steps); i++ {
+		sb.WriteString("(( " + steps[i].text + " ))\necho \"st=$? res=$res tot=$tot\"\n")
+	}
+	return sb.String()
+}
+
+// c20HistoryCase runs the sequence on ONE expand.Config: every result must equal the result on a
+// fresh Config with the same environment (and the stateless model's, through the eval ops), and the
+// nesting counter must be back to 0 after every evaluation.
+func c20HistoryCase(c *Ctx, vars []c20Var, steps []c20HistStep) {
+	env := &c20Env{m: map[string]string{}, ro: map[string]bool{}}
+	for _, v := range vars {
+		if v.val != "" {
+			env.m[v.name] = v.val
+		}
+	}
+	cfg := &expand.Config{Env: env}
+	names := make([]string, len(vars))
+	for i, v := range vars {
+		names[i] = v.name
+	}
+	maxDepth, probed, failed := 0, true, false
+	for i, st := range steps {
+		cur := make([]c20Var, len(names))
+		for j, n := range names {
+			cur[j] = c20Var{name: n, val: env.m[n]}
+		}
+		fresh := c20Eval(cur, false, st.e.toSyntax())
+		var res string
+		p := safely(func() {
+			n, err := expand.Arithm(cfg, st.e.toSyntax())
+			if err != nil {
+				res = "err " + c20ErrClass(err)
+			} else {
+				res = "ok " + strconv.Itoa(n)
+			}
+		})
+		if p != "" {
+			res = "panic"
+		}
+		vals := make([]string, len(names))
+		for j, n := range names {
+			vals[j] = hx(env.m[n])
+		}
+		got := res + " ; " + strings.Join(vals, " ")
+		if i < 3 || i == len(steps)-1 || i%25 == 0 || got != fresh {
+			c.Op("eval "+c20EnvArgs(cur, false)+" "+st.e.enc(), got)
+		}
+		if d, ok := c20ArithmDepth(cfg); !ok {
+			probed = false
+		} else if d > maxDepth {
+			maxDepth = d
+		}
+		if got != fresh && !failed {
+			failed = true
+			c.Fail("sh "+c20Esc(c20HistoryScript(vars, steps, i+1)),
+				fmt.Sprintf("evaluation %d of %d on one expand.Config gives %q, the same evaluation on a fresh Config gives %q", i+1, len(steps), got, fresh))
+		}
+	}
+	ans := strconv.Itoa(maxDepth)
+	if !probed {
+		ans = "no-arithmDepth-field"
+	}
+	// invariant of the model (it is stateless): the nesting counter is 0 between evaluations
+	c.Op("depthafter", ans)
+	c.Case(fmt.Sprintf("history/%d/%s", len(steps), c20HistoryScript(vars, steps, len(steps))), len(steps) >= 3, "history", fmt.Sprintf("history-k<=%d", (len(steps)/100+1)*100))
+}
+
+// c20CounterPairs reads expand/*.go and interp/*.go: every increment of a struct field (a nesting /
+// depth counter such as Config.arithmDepth) must be paired with a deferred decrement, or with a
+// decrement later in the same block with no return statement in between.  Answer: "unpaired" and
+// the offending sites (none on a sound tree).
+func c20CounterPairs(c *Ctx) string {
+	repo := os.Getenv("VERIF_REPO")
+	if repo == "" {
+		repo = "/repo"
+	}
+	var unpaired, all []string
+	for _, dir := range []string{"expand", "interp"} {
+		files, _ := filepath.Glob(filepath.Join(repo, dir, "*.go"))
+		sort.Strings(files)
+		// a nesting counter is a field that is decremented somewhere in the package too; fields that
+		// only ever grow (cursors such as getopts' argidx) are not counters
+		decremented := map[string]bool{}
+		for _, file := range files {
+			if base := filepath.Base(file); strings.HasSuffix(base, "_test.go") || strings.HasPrefix(base, "verif_") {
+				continue
+			}
+			if f, err := goparser.ParseFile(token.NewFileSet(), file, nil, 0); err == nil {
+				ast.Inspect(f, func(n ast.Node) bool {
+					if ids, ok := n.(*ast.IncDecStmt); ok && ids.Tok == token.DEC {
+						if se, ok := ids.X.(*ast.SelectorExpr); ok {
+							decremented[se.Sel.Name] = true
+						}
+					}
+					return true
+				})
+			}
+		}
+		for _, file := range files {
+			base := filepath.Base(file)
+			if strings.HasSuffix(base, "_test.go") || strings.HasPrefix(base, "verif_") {
+				continue
+			}
+			fset := token.NewFileSet()
+			f, err := goparser.ParseFile(fset, file, nil, 0)
+			if err != nil {
+				return "unreadable: " + base
+			}
+			selText := func(e ast.Expr) string {
+				se, ok := e.(*ast.SelectorExpr)
+				if !ok {
+					return ""
+				}
+				id, ok := se.X.(*ast.Ident)
+				if !ok {
+					return ""
+				}
+				return id.Name + "." + se.Sel.Name
+			}
+			isStep := func(st ast.Stmt, tok token.Token) string {
+				if ids, ok := st.(*ast.IncDecStmt); ok && ids.Tok == tok {
+					return selText(ids.X)
+				}
+				return ""
+			}
+			hasReturn := func(st ast.Stmt) bool {
+				found := false
+				ast.Inspect(st, func(n ast.Node) bool {
+					switch n.(type) {
+					case *ast.FuncLit:
+						return false
+					case *ast.ReturnStmt:
+						found = true
+					}
+					return true
+				})
+				return found
+			}
+			deferDec := func(st ast.Stmt, sel string) bool {
+				ds, ok := st.(*ast.DeferStmt)
+				if !ok {
+					return false
+				}
+				found := false
+				ast.Inspect(ds, func(n ast.Node) bool {
+					if s2, ok := n.(ast.Stmt); ok && isStep(s2, token.DEC) == sel {
+						found = true
+					}
+					return true
+				})
+				return found
+			}
+			for _, d := range f.Decls {
+				fd, ok := d.(*ast.FuncDecl)
+				if !ok || fd.Body == nil {
+					continue
+				}
+				ast.Inspect(fd.Body, func(n ast.Node) bool {
+					blk, ok := n.(*ast.BlockStmt)
+					if !ok {
+						return true
+					}
+					for i, st := range blk.List {
+						sel := isStep(st, token.INC)
+						if sel == "" || !decremented[sel[strings.IndexByte(sel, '.')+1:]] {
+							continue
+						}
+						how := "UNPAIRED"
+						for j := i + 1; j < len(blk.List); j++ {
+							if deferDec(blk.List[j], sel) {
+								how = "defer"
+								break
+							}
+							if isStep(blk.List[j], token.DEC) == sel {
+								how = "straight"
+								break
+							}
+							if hasReturn(blk.List[j]) {
+								break
+							}
+						}
+						site := dir + "/" + base + ":" + fd.Name.Name + ":" + sel + ":" + how
+						all = append(all, site)
+						if how == "UNPAIRED" {
+							unpaired = append(unpaired, site)
+						}
+					}
+					return true
+				})
+			}
+		}
+	}
+	c.Extra["counter_sites"] = strings.Join(all, " ")
+	return strings.TrimSpace("unpaired " + strings.Join(unpaired, " "))
+}
+
+// ---------------------------------------------------------------------------------------------
 
 func c20(c *Ctx) {
 	c.Rule = "streams: hook boundary values (atoi/binArit/intPow), wild trees over every node kind/operator with wild variable values (model=code), " +
@@ -1957,6 +2236,7 @@ func c20(c *Ctx) {
 		}
 	}
 	c.Op("prectable", c20PrecTable())
+	c.Op("counterpairs", c20CounterPairs(c))
 
 	nShell := 200
 	if c.Thorough() {
@@ -1982,6 +2262,16 @@ func c20(c *Ctx) {
 		}
 		c20EvalCase(c, vars, roAll, e, "wild")
 		c20ParseStreams(c, e)
+
+		// history: K evaluations on one Config; a few of them also as one script in interp vs bash
+		if i%40 == 0 {
+			hvars, hsteps := c20HistoryPlan(r)
+			c20HistoryCase(c, hvars, hsteps)
+			if i%320 == 0 && len(hsteps) >= 20 {
+				script := c20HistoryScript(hvars, hsteps, len(hsteps))
+				shellCases = append(shellCases, c20ShellCase{script: script, ctx: "history", witness: "sh " + c20Esc(script)})
+			}
+		}
 
 		// assignment targets holding side-effect / failing texts: model = code, oracle, and bash
 		if i%3 == 0 {
